@@ -322,15 +322,16 @@ pub fn reader_logical(rng: &mut Rng, comps: &[Comp]) -> Logical {
     let srcs = [SrcKind::Cursor];
     let mut contents = crate::c08::gen_contents(rng, n, 2048, &srcs, comp);
     let packs = rng.range(1, 2) as u16;
+    // loose files (one FileSource per pack), everything concatenated in one file (all packs are
+    // regions of one FileSource and share its lock), or BasicCreator's one-file container
+    let packaging = *rng.pick(&[Packaging::Loose, Packaging::Concat, Packaging::Loose, Packaging::Concat, Packaging::BasicOne]);
     for (i, c) in contents.iter_mut().enumerate() {
-        c.pack = 1 + (i as u16 % packs);
+        c.pack = if packaging == Packaging::BasicOne { 1 } else { 1 + (i as u16 % packs) };
     }
     Logical {
         comp,
-        // loose files (one FileSource per pack) or everything concatenated in one file (all packs
-        // are regions of one FileSource and share its lock)
-        packaging: *rng.pick(&[Packaging::Loose, Packaging::Concat]),
-        n_packs: packs,
+        packaging,
+        n_packs: if packaging == Packaging::BasicOne { 1 } else { packs },
         contents,
         schema: SchemaSpec {
             key_prefix: *rng.pick(&[0usize, 2]),
